@@ -940,6 +940,29 @@ def check_C07(A, R, tier):
     # R7.8: an upstream-failed sibling does not hide a downstream that needs the Ephemeral (necessary for 'jobs without a failed
     # ancestor behave as without failures')
     rule_undecided_downstream(A, R, None, "R7.8")
+    # ... and a dependency flagged as needed makes the summary answer 'needed' whatever state its downstream is in (an upstream-failed
+    # consumer does not un-flag it: the decision functions behind the summary rely on that)
+    try:
+        from rules_c04 import summary_table
+        for tab in summary_table(A):
+            flagged = {}
+            for (d, c), e in tab["table"].items():
+                for i_, x in enumerate(c):
+                    flagged.setdefault((i_, x), []).append((d, e))
+            decisive = [(i_, x) for (i_, x), lst in flagged.items()
+                        if sum(1 for (d, e) in lst if len(e["early"]) == 1 and not e["cont"]) >= 0.8 * len(lst) and len(set(tuple(sorted(e["early"])) for (d, e) in lst if not e["cont"])) == 1
+                        and any(e["early"] and not e["cont"] for (d, e) in lst)]
+            for (i_, x) in decisive:
+                bad = [A.sname(d) for (d, e) in flagged[(i_, x)] if e["cont"] or len(e["early"]) != 1]
+                R.ob("R7.8", "%s | a dependency whose flag %s is %s decides the answer for every downstream state" % (
+                    short(tab["fn"].name), A.L.edge_fields[i_]["name"] if i_ < len(A.L.edge_fields) else i_, A.uni.show(tab["flag_ty"][i_], x)),
+                    not bad, detail="for a downstream in %s the flag is passed over" % bad[:3])
+    except ImportError:
+        pass
+    # R7.9 (= R3.3): a job is validated (and its consumers released) only when every upstream is finished or a validated Ephemeral that
+    # has not been offered: otherwise a failure of a running upstream cannot stop the consumers any more
+    from rules_compare import rule_validation_verdict
+    rule_validation_verdict(A, R, "R7.9")
     # R7.6: a stale consider signal for a finished job is a no-op
     for s in sorted(C["Finished"]):
         run = H[(K["consider"], s)]
